@@ -68,9 +68,7 @@ def _t_pinv(c):
 def _t_solve(c):
     b = _batch(c, 1)
     n = c.int(1, 3)
-    k = c.int(0, 2)  # rhs: 0 vector (only if no batch), 1 matrix, 2 batched matrix with broadcast
-    if k == 0 and b:
-        k = 1
+    k = c.int(0, 2)  # rhs: 0 vector (with stacked matrices NumPy >= 2 broadcasts an exactly 1-D rhs as one vector), 1 matrix, 2 batched matrix with broadcast
     if k == 0:
         rhs = (n,)
     elif k == 1:
@@ -312,6 +310,9 @@ def _t_fftn(c):
     if c.chance(1, 3):
         eff = axes if axes is not None else (tuple(range(nd)) if w.endswith("n") else (-2, -1))
         kw["s"] = tuple(max(1, s[a] + c.int(-1, 2)) for a in eff)
+        if c.chance(1, 3):  # NumPy >= 2: an entry -1 means "the whole axis, no padding or trimming"
+            j = c.int(0, len(eff) - 1)
+            kw["s"] = tuple(-1 if i == j else n for i, n in enumerate(kw["s"]))
         if axes is None and w.endswith("n"):
             kw["axes"] = eff  # numpy 2 requires axes with s
     nm = c.choice(NORMS)
